@@ -288,28 +288,74 @@ func shrinkOne(ci int, sc *shrinkCase) ([]shrinkMismatch, map[string]int, error)
 		}
 		g.mu.Unlock()
 	}
+	// the interleaved commands go over a connection of their own.  A command may have to wait for the rewrite (an
+	// implementation is free to hold the server lock across the point where the harness has parked it): after 2 s the
+	// rewrite is let go on and the reply is collected afterwards - waiting is not a disagreement, only a wrong reply is
+	c2, err := srv.Dial()
+	if err != nil {
+		return nil, nil, err
+	}
+	defer c2.Close()
+	c2.Timeout = 60 * time.Second
+	type shrinkReply struct {
+		args []string
+		r    t38.Value
+		err  error
+	}
+	judge := func(x shrinkReply) {
+		if x.err != nil {
+			out = append(out, shrinkMismatch{ci, "served", fmt.Sprintf("%q during the rewrite: %v", x.args, x.err)})
+		} else if x.r.Kind == '-' && strings.Contains(x.r.Str, "LOADING") {
+			out = append(out, shrinkMismatch{ci, "served", fmt.Sprintf("%q during the rewrite: %s", x.args, x.r.Str)})
+		}
+	}
+	var waiting chan shrinkReply
+	blocked := 0
 	_, err = runShrinkOnce(c, g, func(gate string, occ int) {
 		for _, d := range plan[fmt.Sprintf("%s#%d", gate, occ)] {
+			if waiting != nil {
+				select {
+				case x := <-waiting:
+					judge(x)
+					waiting = nil
+				default:
+					continue // the connection is still waiting for the rewrite: this command is not issued
+				}
+			}
 			args := d.Raw
 			if len(args) == 0 {
 				args = ks.Concrete(d.C)
 			}
-			r, err := c.Do(args...)
 			issued++
-			if err != nil {
-				out = append(out, shrinkMismatch{ci, "served", fmt.Sprintf("%q during the rewrite: %v", args, err)})
-			} else if r.Kind == '-' && strings.Contains(r.Str, "LOADING") {
-				out = append(out, shrinkMismatch{ci, "served", fmt.Sprintf("%q during the rewrite: %s", args, r.Str)})
+			done := make(chan shrinkReply, 1)
+			go func(args []string) {
+				r, err := c2.Do(args...)
+				done <- shrinkReply{args, r, err}
+			}(args)
+			select {
+			case x := <-done:
+				judge(x)
+			case <-time.After(2 * time.Second):
+				waiting = done
+				blocked++
 			}
 		}
 	})
 	if err != nil {
 		return nil, nil, err
 	}
+	if waiting != nil {
+		select {
+		case x := <-waiting:
+			judge(x)
+		case <-time.After(60 * time.Second):
+			out = append(out, shrinkMismatch{ci, "served", "a command issued during the rewrite was not answered within 60 s after the rewrite had ended"})
+		}
+	}
 	if crashErr != nil {
 		return nil, nil, crashErr
 	}
-	stats := map[string]int{"issued": issued, "gates_keys": counts["keys"], "gates_ids": counts["ids"]}
+	stats := map[string]int{"issued": issued, "gates_keys": counts["keys"], "gates_ids": counts["ids"], "waited_for_the_rewrite": blocked}
 	// (a)+(b)+(c): restart on the shrunk file = the live dataset, including the writes made meanwhile
 	live := srv.S.VerifDump(true)
 	dir, err := copyDataDir(srv.Dir)
